@@ -93,6 +93,13 @@ def run(ctx):
                     yield ("opaque", {"t": t, "b": rng.randbytes(w).hex()})
                 yield ("opaque", {"t": t, "b": bytes(w).hex()})
                 yield ("opaque", {"t": t, "b": (b"\xff" * w).hex()})
+        # text: ASCII strings of every shape through the variable-length text type
+        for txt in ("", "A", "hello world", "C:\\temp\\x64\\out", "[\\x20-\\x7e]+", "\\x41\\x42", "100% {ok} 'q' \"d\"", "\\\\", "\\n\\t\\r", "\\u0041\\N{DASH}",
+                    "b'\\x00'", "%s %d {0}", "tab\there", " lead and trail ", "~" * 300):
+            yield ("text", {"t": "CH", "b": txt.encode("ascii").hex()})
+        for _ in range(400 if big else 60):
+            n = rng.randrange(1, 40)
+            yield ("text", {"t": "CH", "b": bytes(rng.choice(b"\\x0123456789abcdefABCDEF {}%'\"") for _ in range(n)).hex()})
         # checksums: all strings over a 4-byte alphabet up to a length, plus long random ones
         for n in range(0, 7 if big else 6):
             for tup in itertools.product((0, 1, 0x80, 0xFF), repeat=n):
